@@ -10,7 +10,8 @@ from usim import Capacities, Resources, ResourcesUnavailable, time, instant
 PROPERTY = 'C12'
 LEVEL = 'fault_enumeration'
 RULE = (
-    'Capacities and Resources with 1-3 named resources, 2-8 borrowers / claimants with amounts '
+    'Capacities and Resources with 1-3 named resources (integer and dyadic float amounts, zero '
+    'amounts), 2-8 borrowers / claimants with amounts '
     'up to the full supply (so waiting and simultaneous release/acquire happen), nested borrows '
     'from a borrowed share, concurrent increase / decrease / set; un-injected run plus cancel / '
     'until-interrupt / close injected at activation boundaries of any borrower (quick: sampled; '
@@ -47,14 +48,22 @@ def make_case(seed, index, tier):
     rng = random.Random('%s/%s/c12' % (seed, index))
     kind = rng.choice(['capacities', 'resources', 'resources'])
     fields = rng.sample(['a', 'b', 'c'], rng.randint(1, 3))
-    supply = {field: rng.randint(1, 5) for field in fields}
+    fractional = rng.random() < 0.25        # dyadic float amounts (exact arithmetic)
+    unit = 0.5 if fractional else 1
+    supply = {field: rng.randint(1, 5) * unit + (0.25 if fractional and rng.random() < 0.3 else 0)
+              for field in fields}
+
+    def pick(upper):
+        if not fractional:
+            return rng.randint(0, upper)
+        return rng.choice([0, 0.25, 0.5, 1, 1.5, upper, upper / 2, upper])
 
     def amounts(limit):
-        result = {field: rng.randint(0, limit[field]) for field in fields
+        result = {field: min(pick(limit[field]), limit[field]) for field in fields
                   if rng.random() < 0.75}
         if not result:
             field = rng.choice(fields)
-            result = {field: rng.randint(0, limit[field])}
+            result = {field: min(pick(limit[field]), limit[field])}
         return result
     users = []
     for number in range(rng.randint(2, 8)):
@@ -64,7 +73,7 @@ def make_case(seed, index, tier):
             round_ = {'offset': rng.choice(GRID), 'amounts': amount,
                       'claim': rng.random() < 0.3, 'hold': rng.choice(GRID)}
             if rng.random() < 0.3:
-                round_['nested'] = {'amounts': {key: rng.randint(0, value)
+                round_['nested'] = {'amounts': {key: min(pick(value), value)
                                                 for key, value in amount.items()},
                                     'hold': rng.choice(GRID), 'claim': rng.random() < 0.3}
             rounds.append(round_)
@@ -74,7 +83,7 @@ def make_case(seed, index, tier):
         for _ in range(rng.randint(0, 4)):
             adjust.append({'offset': rng.choice(GRID),
                            'how': rng.choice(['increase', 'decrease', 'set']),
-                           'amounts': {rng.choice(fields): rng.randint(0, 3)}})
+                           'amounts': {rng.choice(fields): rng.randint(0, 3) * unit}})
     return {'seed': seed, 'index': index, 'tier': tier,
             'scenario': {'kind': kind, 'supply': supply, 'users': users, 'adjust': adjust}}
 
